@@ -122,7 +122,7 @@ def run(prop, tier, seed, replay, plan, scratch, children, start):
     if race:
         env["GORACE"] = "halt_on_error=0 exitcode=0 log_path=%s/race" % scratch
 
-    outdir = os.path.join(VERIF, "out")
+    outdir = os.environ.get("VERIF_OUTDIR") or os.path.join(VERIF, "out")
     if replay:
         r = subprocess.run([binpath, "-replay", replay, "-prop", prop], env=env)
         return r.returncode
@@ -335,8 +335,9 @@ def conclude(prop, tier, seed, plan, reports, crashed, hung, scratch, start, out
         "wall_s": round(time.time() - start, 2),
         "violations": len(unknown),
     }
-    os.makedirs(os.path.join(VERIF, "evidence"), exist_ok=True)
-    with open(os.path.join(VERIF, "evidence", prop + ".json"), "w") as fh:
+    evdir = os.environ.get("VERIF_EVIDENCE_DIR") or os.path.join(VERIF, "evidence")
+    os.makedirs(evdir, exist_ok=True)
+    with open(os.path.join(evdir, prop + ".json"), "w") as fh:
         json.dump(evidence, fh, indent=1, sort_keys=True)
 
     for sig, (k, vs) in sorted(knownhit.items()):
